@@ -141,6 +141,13 @@ Line ==
          s == IF s1.alive /\ ~s1.run[i] /\ ~s1.disabled[i] THEN [s1 EXCEPT !.run[i] = TRUE, !.inc[i] = @ + 1] ELSE s1
      IN /\ SetRef(s) /\ UNCHANGED cfgvars
         /\ mismatch' = Compare(e, Cur, s)
+  ELSE IF e.ev = "disablefault" THEN
+     \* DisableChild(i) while child i is busy, then a sibling dies before i has gone: the outcome is that of the two events in order
+     LET i == e.i
+         s1 == IF alive /\ run[i] /\ ~disabled[i] THEN HandleExit([Cur EXCEPT !.disabled[i] = TRUE], i, "shutdown", e.now) ELSE Cur
+         s == IF e.res = "ok" THEN HandleBatch(s1, e.faults, 1, s1.inc, e.now) ELSE Cur
+     IN /\ SetRef(s) /\ UNCHANGED cfgvars
+        /\ mismatch' = Compare(e, Cur, s)
   ELSE IF e.ev = "exitsup" THEN
      \* the supervisor is told to stop (e.why) while a child is busy and then dies of a reason of its own: everything stops, and the
      \* supervisor ends with the reason it was given
